@@ -1,8 +1,10 @@
 package an
 
 import (
+	"fmt"
 	"go/constant"
 	"go/token"
+	"strings"
 
 	"golang.org/x/tools/go/ssa"
 )
@@ -12,6 +14,9 @@ type Fact struct {
 	V    ssa.Value
 	True bool
 	If   *ssa.If
+	// Via is set for facts imported from a callee's summary ("H returned nil, so on H's success returns
+	// `param REL bound` held"): Cmp is the comparison over the caller's argument.
+	Via *Cmp
 }
 
 // norm strips NOTs.
@@ -24,7 +29,7 @@ func normFact(v ssa.Value, truth bool, ifi *ssa.If) Fact {
 		v = u.X
 		truth = !truth
 	}
-	return Fact{v, truth, ifi}
+	return Fact{V: v, True: truth, If: ifi}
 }
 
 // FactsAt returns the branch conditions that dominate entry to block b, with polarity.
@@ -41,6 +46,7 @@ func FactsAt(b *ssa.BasicBlock) []Fact {
 				f := normFact(ifi.Cond, p.Succs[0] == b, ifi)
 				out = append(out, f)
 				out = append(out, expandPhiFact(f, 0)...)
+				out = append(out, calleeFacts(f)...)
 			}
 			b = p
 			continue
@@ -94,6 +100,9 @@ func flip(op token.Token) token.Token {
 
 // AsCmp converts a fact to the comparison known to hold, if it is one.
 func (f Fact) AsCmp() (Cmp, bool) {
+	if f.Via != nil {
+		return *f.Via, true
+	}
 	b, ok := f.V.(*ssa.BinOp)
 	if !ok {
 		return Cmp{}, false
@@ -183,6 +192,7 @@ func FactsOnEdge(e Edge) []Fact {
 		f := normFact(ifi.Cond, e.From.Succs[0] == e.To, ifi)
 		out = append(out, f)
 		out = append(out, expandPhiFact(f, 0)...)
+		out = append(out, calleeFacts(f)...)
 	}
 	return out
 }
@@ -230,5 +240,133 @@ func expandPhiFact(f Fact, depth int) []Fact {
 		out = append(out, expandPhiFact(nf, depth+1)...)
 	}
 	out = append(out, FactsOnEdge(Edge{pred, phi.Block()})...)
+	return out
+}
+
+// calleeFacts: f says `err == nil` where err is the error result of a call to a function H of this
+// module (a validation helper extracted from its caller). Every comparison `param REL bound` that holds on
+// all of H's nil-error returns then holds for the corresponding argument in the caller.
+func calleeFacts(f Fact) []Fact {
+	cmp, ok := f.AsCmp()
+	if !ok || f.Via != nil || cmp.Op != token.EQL {
+		return nil
+	}
+	var ev ssa.Value
+	if IsNilConst(cmp.Y) {
+		ev = cmp.X
+	} else if IsNilConst(cmp.X) {
+		ev = cmp.Y
+	}
+	if ev == nil || !IsErrorType(ev.Type()) {
+		return nil
+	}
+	var call *ssa.Call
+	switch x := ev.(type) {
+	case *ssa.Call:
+		call = x
+	case *ssa.Extract:
+		call, _ = x.Tuple.(*ssa.Call)
+	}
+	if call == nil {
+		return nil
+	}
+	h := StaticCallee(call)
+	if h == nil || h.Blocks == nil || h.Pkg == nil || !strings.HasPrefix(h.Pkg.Pkg.Path(), ModPath) || h == call.Parent() {
+		return nil
+	}
+	paramIdx := func(v ssa.Value) int {
+		v = Strip(v)
+		for i, p := range h.Params {
+			if v == ssa.Value(p) {
+				return i
+			}
+		}
+		return -1
+	}
+	type key struct {
+		op  token.Token
+		x   int
+		y   string
+	}
+	var sets []map[key]Cmp
+	for _, r := range Returns(h) {
+		if len(r.Results) == 0 {
+			continue
+		}
+		e := Resolve(r.Results[len(r.Results)-1])
+		if !IsErrorType(e.Type()) {
+			return nil
+		}
+		if !IsNilConst(e) {
+			// a possibly-nil non-constant return: facts unknown, give up unless provably non-nil (MakeInterface / call to a constructor)
+			switch e.(type) {
+			case *ssa.MakeInterface:
+				continue
+			case *ssa.Call:
+				continue // constructors like NewFatalClientErr / errors.New: non-nil by contract
+			}
+			nonNil := false
+			for _, c := range CmpsAt(r.Block()) {
+				if c.Op == token.NEQ && c.X == e && IsNilConst(c.Y) {
+					nonNil = true
+				}
+			}
+			if nonNil {
+				continue
+			}
+			return nil
+		}
+		set := map[key]Cmp{}
+		for _, c := range cmpsNoImport(r.Block()) {
+			for _, oc := range []Cmp{c, {flip(c.Op), c.Y, c.X, c.If}} {
+				xi := paramIdx(oc.X)
+				if xi < 0 || xi >= len(call.Call.Args) {
+					continue
+				}
+				ys := ""
+				y := oc.Y
+				if yi := paramIdx(oc.Y); yi >= 0 && yi < len(call.Call.Args) {
+					y = call.Call.Args[yi]
+					ys = fmt.Sprintf("p%d", yi)
+				} else if k, isC := Strip(oc.Y).(*ssa.Const); isC {
+					ys = "c:" + k.String()
+				} else {
+					ys = "v:" + AccessPath(oc.Y)
+				}
+				set[key{oc.Op, xi, ys}] = Cmp{oc.Op, call.Call.Args[xi], y, f.If}
+			}
+		}
+		sets = append(sets, set)
+	}
+	if len(sets) == 0 {
+		return nil
+	}
+	var out []Fact
+	for k, c := range sets[0] {
+		all := true
+		for _, s := range sets[1:] {
+			if _, ok := s[k]; !ok {
+				all = false
+			}
+		}
+		if all {
+			cc := c
+			out = append(out, Fact{V: f.V, True: f.True, If: f.If, Via: &cc})
+		}
+	}
+	return out
+}
+
+// cmpsNoImport is CmpsAt without importing callee summaries (one level of helper transparency only).
+func cmpsNoImport(b *ssa.BasicBlock) []Cmp {
+	var out []Cmp
+	for _, f := range FactsAt(b) {
+		if f.Via != nil {
+			continue
+		}
+		if c, ok := f.AsCmp(); ok {
+			out = append(out, c)
+		}
+	}
 	return out
 }
